@@ -182,3 +182,16 @@ Proof.
   intros p s l H Ha. rewrite poll_eq in H. cbn in H. apply in_map_iff in H. destruct H as (l0 & <- & _).
   unfold la_listener in *. cbn in *. rewrite Ha. reflexivity.
 Qed.
+
+(* the hypotheses of the admission theorems are satisfiable: at the limit the
+   third connection stays in the backlog; after a disconnect has been noticed
+   (first turn) the next turn starts below the limit and accepts it *)
+Example admission_example :
+  let p := mkParams 4 120 30 1 0 65536 in
+  let s := run p (init 1 1000 1000) [EConnect 0; EConnect 0; EConnect 0; EPoll; EPoll] in
+  map_len s = p_limit p /\
+  map c_fd (st_chans (poll p s)) = [1000; 1001] /\
+  map l_overflow (st_listeners (poll p s)) = [true] /\
+  map c_fd (st_chans (run p s [EDisconnect 1000; EPoll; EPoll])) = [1001; 1002] /\
+  map l_overflow (st_listeners (run p s [EDisconnect 1000; EPoll; EPoll])) = [false].
+Proof. vm_compute. repeat split; reflexivity. Qed.
